@@ -126,7 +126,9 @@ def table(draw, min_rows=1, max_rows=12, fields=None, permute=True, unique_ids=T
     index = "default"
     if index_kinds:
         index = draw(st.sampled_from(index_kinds))
-    return {"cols": list(cols), "rows": rows, "bulk": bulk, "index": index}
+    # number-like fields stored with an integer dtype (tables built from python ints / integer arrays) - only where every value is integral
+    id_dtype = draw(st.sampled_from(["float", "float", "float", "int"]))
+    return {"cols": list(cols), "rows": rows, "bulk": bulk, "index": index, "id_dtype": id_dtype}
 
 
 def default_bulk(rng, n, first_id):
@@ -178,6 +180,11 @@ def table_df(t, bulk_fn=default_bulk):
     elif kind == "repeated":  # labels as left behind by pd.concat of two lists without ignore_index: 0..k-1, 0..n-k-1
         k = (n + 1) // 2
         df.index = list(range(k)) + list(range(n - k))
+    if t.get("id_dtype") == "int":
+        for c in ("subtomo_id", "tomo_id", "object_id", "class"):
+            v = df[c].to_numpy()
+            if np.all(np.isfinite(v)) and np.all(v == np.round(v)) and np.all(np.abs(v) < 2**53):
+                df[c] = v.astype(np.int64)
     return df[list(t["cols"])].copy()
 
 
